@@ -368,29 +368,34 @@ def seq_encoding(chk):
     chk.floor('sequence-number encodings', n, 9)
 
 
-def seeder_rules(chk):
-    """every system seeder compiled in this configuration returns 0 when its source fails and updates the DRBG before returning 1"""
+def seeder_rules(chk, config='host'):
+    """every system seeder compiled in this configuration returns 0 when its source fails and updates the DRBG before returning 1;
+    run for the host configuration and for the two single-seeder builds (getentropy only, /dev/urandom only): a fallback that exists
+    in one build may be the only thing that hides a missing failure return in another"""
     s = 'src/rand/sysrng.c'
     R = 'seeder-fail-closed'
-    U = oblig.funit(s)
+    U = oblig.funit(s, config)
     obs = []
     names = set(U.funcs)
     if 'seeder_urandom' in names:
         obs += [
-            Ob(s, 'seeder_urandom', Call('open'), ('pin', -1), ALL(RET(0), E(fold.expect_no_indirect_call, 'DRBG not updated')), ('pin', 3), '/dev/urandom cannot be opened', rule=R),
-            Ob(s, 'seeder_urandom', Call('read'), ('pin', 0), ALL(RET(0), E(fold.expect_no_indirect_call, 'DRBG not updated')), None, 'short / failed read', rule=R),
-            Ob(s, 'seeder_urandom', Call('read'), ('pin', -1), ALL(RET(0), E(fold.expect_no_indirect_call, 'DRBG not updated')), None, 'short / failed read', rule=R),
+            Ob(s, 'seeder_urandom', Call('open'), ('pin', -1), ALL(RET(0), E(fold.expect_no_indirect_call, 'DRBG not updated')), ('pin', 3), '/dev/urandom cannot be opened [%s]' % config, rule=R, config=config),
+            Ob(s, 'seeder_urandom', Call('read'), ('pin', 0), ALL(RET(0), E(fold.expect_no_indirect_call, 'DRBG not updated')), None, 'short / failed read [%s]' % config, rule=R, config=config),
+            Ob(s, 'seeder_urandom', Call('read'), ('pin', -1), ALL(RET(0), E(fold.expect_no_indirect_call, 'DRBG not updated')), None, 'short / failed read [%s]' % config, rule=R, config=config),
         ]
     if 'seeder_getentropy' in names:
         obs += [
-            Ob(s, 'seeder_getentropy', Call('getentropy'), ('pin', -1), E(fold.expect_no_indirect_call, 'DRBG not updated from a failed getentropy'), None,
-               'getentropy failure must not seed (falls back to urandom)', rule=R, noinline=('seeder_urandom',)),
+            Ob(s, 'seeder_getentropy', Call('getentropy'), ('pin', -1),
+               E(fold.expect_no_indirect_call, 'DRBG not updated from a failed getentropy') if 'seeder_urandom' in names else
+               ALL(RET(0), E(fold.expect_no_indirect_call, 'DRBG not updated from a failed getentropy')), None,
+               'getentropy failure must not seed (falls back to urandom when that seeder is compiled in, reports failure otherwise) [%s]' % config,
+               rule=R, noinline=('seeder_urandom',), config=config),
         ]
     if 'seeder_rdrand_with_fallback' in names:
         obs += [
-            Ob(s, 'seeder_rdrand_with_fallback', Call('seeder_rdrand'), ('pin', 1), RET(1), None, 'rdrand success', rule=R, noinline=('seeder_rdrand',)),
+            Ob(s, 'seeder_rdrand_with_fallback', Call('seeder_rdrand'), ('pin', 1), RET(1), None, 'rdrand success', rule=R, noinline=('seeder_rdrand',), config=config),
         ]
-    chk.count('seeders_compiled', len([n for n in names if n.startswith('seeder_')]))
+    chk.count('seeders_compiled [%s]' % config, len([n for n in names if n.startswith('seeder_')]))
     if not obs:
         raise AnalysisBroken('no system seeder found in sysrng.c for this configuration')
     oblig.run_obligations(chk, obs)
@@ -425,11 +430,11 @@ def seeder_rules(chk):
                         if any(c2.get('callee', '') and c2['callee'].startswith('seeder_') and F.dominates_block(F.block_of[c2['id']], sb) for c2 in F.calls()):
                             continue
                         bad = sb
-        inst = '%s: a success return is dominated by the DRBG update' % fn
+        inst = '%s: a success return is dominated by the DRBG update [%s]' % (fn, config)
         if bad is None:
             chk.ok('seeder-update-before-success', inst, F.where())
         else:
-            chk.violation('seeder-update-before-success', inst, F.where(), 'a non-zero return is reachable without (*ctx)->update', key='seeder-update %s' % fn)
+            chk.violation('seeder-update-before-success', inst, F.where(), 'a non-zero return is reachable without (*ctx)->update', key='seeder-update %s %s' % (fn, config))
 
 
 def run(tier):
@@ -444,6 +449,8 @@ def run(tier):
                        trusted=['clang/opt 14', 'debug-info struct layouts', 'sa/wmw.py whole-program store scan (all 295 units)'])
     rng_rules(chk)
     seeder_rules(chk)
+    seeder_rules(chk, 'rnd_getentropy_only')
+    seeder_rules(chk, 'rnd_urandom_only')
     seed_all_bytes(chk)
     iv_field_writers(chk)
     ephemeral_key_fully_drawn(chk)
